@@ -1,11 +1,406 @@
+/-
+  C16 — scalars are quantities, arrays are arrays, views stay attached to their data.
+
+  Property theorems about `UnytModel/ResultClass.lean` and `UnytModel/Shape.lean` (the definitions
+  the driver `drv_c16` executes).  `Res.Good` is the property's requirement on one result
+  (shape `()` ⇒ quantity; more than one element ⇒ not a quantity); `Res.Strict` the sharper rule
+  the dedicated code paths implement (quantity ⇔ shape `()`).  All statements quantify over every
+  shape (lists of naturals of any length) and every operand class.
+-/
 import UnytModel.ResultClass
+import UnytModel.Generated.C16Tables
+import UnytModel.Ref.C16
+import UnytProofs.Lemmas.C16Shape
+
+set_option linter.unusedSectionVars false
+set_option linter.unusedVariables false
+set_option linter.unusedSimpArgs false
+
 namespace Unyt.C16
 open Unyt Shape
 
-theorem unitMul_strict (sh : Shape) (r : Res) (h : unitMulData true sh = .ok r) : r.Strict := by
+/-! ## 0. `Strict` implies `Good` -/
+
+/-- the sharper rule implies the property's requirement: a shape with more than one element is
+    not `()` -/
+theorem strict_good (r : Res) (h : r.Strict) : r.Good := by
+  refine ⟨fun hs => h.2 hs, fun hsz => ?_⟩
+  cases hq : r.cls.isQuantity with
+  | false => rfl
+  | true => have := h.1 hq; rw [this] at hsz; simp [size] at hsz
+
+/-! ## 1. the ufunc wrap-up -/
+
+/-- `_get_binary_op_return_class` never invents a class: it returns one of its arguments -/
+theorem binaryReturnClass_is_operand (c1 c2 c : PyCls) (h : binaryReturnClass c1 c2 = .ok c) :
+    c = c1 ∨ c = c2 := by
+  unfold binaryReturnClass at h
+  repeat' split at h
+  all_goals first | (cases h; simp) | cases h
+
+theorem uarray_not_quantity : PyCls.uarray.isQuantity = false := by decide
+theorem uarray_is_unyt : PyCls.uarray.isUnyt = true := by decide
+theorem uquantity_is_quantity : PyCls.uquantity.isQuantity = true := by decide
+theorem uquantity_is_unyt : PyCls.uquantity.isUnyt = true := by decide
+theorem ndarray_not_unyt : PyCls.ndarray.isUnyt = false := by decide
+
+theorem construct_uarray (sh : Shape) : construct .uarray sh = .ok ⟨.uarray, sh⟩ := by
+  simp [construct, uarray_not_quantity, uarray_is_unyt]
+
+theorem construct_uquantity_nil : construct .uquantity [] = .ok ⟨.uquantity, []⟩ := by
+  simp [construct, uquantity_is_quantity, size]
+
+/-- what a successful `cls(value, unit)` is: that class, that shape, a unyt class, and at most
+    one element for the quantity classes -/
+theorem construct_ok (cls : PyCls) (sh : Shape) (r : Res) (h : construct cls sh = .ok r) :
+    r = ⟨cls, sh⟩ ∧ cls.isUnyt = true ∧ (cls.isQuantity = true → size sh ≤ 1) := by
+  unfold construct at h
+  by_cases hq : cls.isQuantity = true
+  · simp only [hq, if_true] at h
+    by_cases hsz : size sh > 1
+    · simp [hsz] at h
+    · simp only [hsz, if_false] at h
+      cases h
+      refine ⟨rfl, ?_, fun _ => by omega⟩
+      revert hq; cases cls <;> decide
+  · simp only [hq, if_false] at h
+    by_cases hu : cls.isUnyt = true
+    · simp only [hu, if_true] at h; cases h; exact ⟨rfl, hu, fun h' => absurd h' hq⟩
+    · simp [hu] at h
+
+/-- wrap-up of every ufunc except `modf`/`divmod` whose unit rule gives a unit: the result is a
+    `unyt_quantity` exactly when the raw result has shape `()`, for every class handed in and
+    every shape; the shape is NumPy's -/
+theorem wrapUp_strict (rc : PyCls) (sh : Shape) (r : Res)
+    (h : wrapUp false false rc sh = .ok r) : r.Strict ∧ r.shape = sh ∧ r.cls.isUnyt = true := by
+  unfold wrapUp at h
+  simp only [Bool.false_eq_true, if_false] at h
+  by_cases hs : sh = []
+  · subst hs
+    simp only [if_true, construct_uquantity_nil] at h
+    cases h
+    exact ⟨⟨fun _ => rfl, fun _ => uquantity_is_quantity⟩, rfl, uquantity_is_unyt⟩
+  · simp only [hs, if_false] at h
+    by_cases h1 : size sh = 1
+    · simp only [h1, if_true, construct_uarray] at h
+      cases h
+      exact ⟨⟨fun hq => by simp [uarray_not_quantity] at hq, fun h' => absurd h' hs⟩, rfl, uarray_is_unyt⟩
+    · simp only [h1, if_false] at h
+      by_cases hq : rc.isQuantity = true
+      · simp only [hq, if_true, construct_uarray] at h
+        cases h
+        exact ⟨⟨fun hq => by simp [uarray_not_quantity] at hq, fun h' => absurd h' hs⟩, rfl, uarray_is_unyt⟩
+      · simp only [hq] at h
+        by_cases hu : rc.isUnyt = true
+        · simp only [hu, if_true] at h
+          cases h
+          exact ⟨⟨fun hq' => absurd hq' hq, fun hs' => absurd hs' hs⟩, rfl, hu⟩
+        · simp [hu] at h
+
+/-- no wrap-up branch — `modf`/`divmod` and unit-less results included — ever returns a
+    quantity with more than one element -/
+theorem wrapUp_no_multielement_quantity (un mo : Bool) (rc : PyCls) (sh : Shape) (r : Res)
+    (h : wrapUp un mo rc sh = .ok r) (hq : r.cls.isQuantity = true) : size r.shape ≤ 1 := by
+  cases un with
+  | true => simp [wrapUp] at h; subst h; simp [PyCls.isQuantity, PyCls.isSub, PyCls.base] at hq
+  | false =>
+    cases mo with
+    | false =>
+      have := wrapUp_strict rc sh r h
+      have hs := this.1.1 hq
+      rw [hs]; simp [size]
+    | true =>
+      simp only [wrapUp, Bool.false_eq_true, if_false, if_true, construct] at h
+      split at h
+      · split at h
+        · cases h
+        · cases h; simp only; omega
+      · split at h
+        · cases h; rename_i hnq _; exact absurd hq hnq
+        · cases h
+
+/-- the post-multiplication `mul * out_arr` (a second trip through `__array_ufunc__` with a
+    Python float) returns the same class and shape -/
+theorem wrapUp_postmul_idem (rc : PyCls) (sh : Shape) (r : Res)
+    (h : wrapUp false false rc sh = .ok r) :
+    ∃ rc', binaryReturnClass .pyfloat r.cls = .ok rc' ∧ wrapUp false false rc' r.shape = .ok r := by
+  obtain ⟨hst, hsh, hu⟩ := wrapUp_strict rc sh r h
+  refine ⟨r.cls, ?_, ?_⟩
+  · unfold binaryReturnClass
+    have : PyCls.pyfloat ≠ r.cls := by intro e; rw [← e] at hu; simp [PyCls.isUnyt, PyCls.isSub, PyCls.base] at hu
+    simp [this, PyCls.isBare]
+  · obtain ⟨c, s⟩ := r
+    simp only at hst hsh hu ⊢
+    unfold wrapUp
+    simp only [Bool.false_eq_true, if_false]
+    by_cases hs : s = []
+    · subst hs
+      have hq : c.isQuantity = true := hst.2 rfl
+      -- the only quantity class the wrap-up produces is unyt_quantity itself
+      have : c = .uquantity := by
+        unfold wrapUp at h; subst hsh
+        simp [construct, PyCls.isQuantity, PyCls.isSub, size] at h
+        exact h.symm
+      subst this
+      simp [construct, PyCls.isQuantity, PyCls.isSub, size]
+    · have hnq : c.isQuantity = false := by
+        cases hq : c.isQuantity with
+        | false => rfl
+        | true => exact absurd (hst.1 hq) hs
+      simp only [hs, if_false]
+      by_cases h1 : size s = 1
+      · have : c = .uarray := by
+          unfold wrapUp at h; subst hsh
+          simp [hs, h1, construct, PyCls.isQuantity, PyCls.isUnyt, PyCls.isSub, PyCls.base] at h
+          exact h.symm
+        subst this
+        simp [h1, construct, PyCls.isQuantity, PyCls.isUnyt, PyCls.isSub, PyCls.base]
+      · simp [h1, hnq, hu]
+
+/-- **wrap_class_iff_shape (ufuncs)** — for every invocation (`__call__`, `reduce`, `accumulate`,
+    `outer`, `matmul`, `vecdot`), every operand class tuple and every operand shapes: when the
+    unit rule yields a unit and the ufunc is not `modf`/`divmod`, the value returned by
+    `__array_ufunc__` is a `unyt_quantity` iff its shape is `()` — with or without the
+    post-multiplication by a simplification coefficient -/
+theorem ufunc_wrap_class_iff_shape (c : UfuncCall) (r : Res)
+    (hu : c.unitNone = false) (hm : c.multiOut = false) (h : ufuncResult c = .ok r) :
+    r.Strict ∧ r.cls.isUnyt = true := by
+  unfold ufuncResult at h
+  split at h
+  · cases h
+  · rename_i rc _
+    split at h
+    · cases h
+    · rename_i sh _
+      rw [hu, hm] at h
+      split at h
+      · cases h
+      · rename_i r0 hr0
+        have h0 := wrapUp_strict rc sh r0 hr0
+        by_cases h1 : c.mulIsOne = true
+        · simp [h1] at h; subst h; exact ⟨h0.1, h0.2.2⟩
+        · simp only [h1, Bool.false_or, Bool.false_eq_true, if_false] at h
+          obtain ⟨rc', hb, hw⟩ := wrapUp_postmul_idem rc sh r0 hr0
+          rw [hb] at h
+          simp only at h
+          rw [hw] at h
+          cases h
+          exact ⟨h0.1, h0.2.2⟩
+
+/-- **no_multielement_quantity (ufuncs)** — whatever the flags (`modf`/`divmod`, unit-less
+    results, post-multiplication), a ufunc never returns a quantity with more than one element -/
+theorem ufunc_no_multielement_quantity (c : UfuncCall) (r : Res) (h : ufuncResult c = .ok r)
+    (hq : r.cls.isQuantity = true) : size r.shape ≤ 1 := by
+  unfold ufuncResult at h
+  split at h
+  · cases h
+  · rename_i rc _
+    split at h
+    · cases h
+    · rename_i sh _
+      split at h
+      · cases h
+      · rename_i r0 hr0
+        split at h
+        · cases h; exact wrapUp_no_multielement_quantity _ _ rc sh r hr0 hq
+        · split at h
+          · cases h
+          · exact wrapUp_no_multielement_quantity _ _ _ _ r h hq
+
+/-- `modf`/`divmod` skip the shape test: a 0-d `unyt_array` operand comes back as 0-d
+    `unyt_array`s, and a size-1 non-scalar result of `divmod(quantity, ndarray)` is a quantity —
+    `Strict` fails for them (the harness replays both on the real code) -/
+theorem multiOut_counterexample :
+    (∃ r, ufuncResult ⟨.call, false, true, true, [(.uarray, [])]⟩ = .ok r ∧ ¬ r.Good) ∧
+    (∃ r, ufuncResult ⟨.call, false, true, true, [(.uquantity, []), (.ndarray, [1])]⟩ = .ok r ∧ ¬ r.Strict) ∧
+    ufuncResult ⟨.call, false, true, true, [(.uquantity, []), (.ndarray, [2])]⟩ = .error .RuntimeError := by
+  refine ⟨⟨⟨.uarray, []⟩, rfl, by decide⟩, ⟨⟨.uquantity, [1]⟩, rfl, by decide⟩, rfl⟩
+
+/-- the full statement for the ufunc layer: every returned unyt object meets the property, for
+    operands that meet it themselves -/
+def OperandsGood (ops : List (PyCls × Shape)) : Prop :=
+  ∀ o ∈ ops, o.1.isUnyt = true → Res.Good ⟨o.1, o.2⟩
+
+/-- for a plain call with at most two operands that satisfy the property, a raw result of
+    shape `()` means the class handed to the wrap-up is a quantity class -/
+theorem call_scalar_class (ops : List (PyCls × Shape)) (rc : PyCls)
+    (hops : OperandsGood ops) (hlen : ops.length ≤ 2)
+    (hrc : ufuncRetClass (ops.map (·.1)) = .ok rc)
+    (hsh : ufuncOutShape .call (ops.map (·.2)) = .ok []) (hu : rc.isUnyt = true) :
+    rc.isQuantity = true := by
+  match ops, hlen with
+  | [], _ => simp [ufuncRetClass] at hrc
+  | [(c1, s1)], _ =>
+    simp only [List.map, ufuncRetClass, ufuncOutShape] at hrc hsh
+    cases hrc; cases hsh
+    exact (hops (rc, []) (by simp) hu).1 rfl
+  | [(c1, s1), (c2, s2)], _ =>
+    simp only [List.map, ufuncRetClass, ufuncOutShape] at hrc hsh
+    cases hb : broadcast s1 s2 with
+    | none => simp [hb] at hsh
+    | some r' =>
+      simp only [hb] at hsh
+      cases hsh
+      obtain ⟨e1, e2⟩ := (broadcast_eq_nil_iff s1 s2).1 hb
+      subst e1; subst e2
+      rcases binaryReturnClass_is_operand c1 c2 rc hrc with e | e
+      · subst e; exact (hops (rc, []) (by simp) hu).1 rfl
+      · subst e; exact (hops (rc, []) (by simp) hu).1 rfl
+  | _ :: _ :: _ :: _, hl => simp at hl
+
+/-- **C16 for ufuncs, full strength** — for every ufunc invocation (including `modf`/`divmod`,
+    which NumPy only offers as plain calls on one or two operands) on operands that satisfy the
+    property, every unyt object returned satisfies the property -/
+theorem ufunc_result_good (c : UfuncCall) (r : Res)
+    (hops : OperandsGood c.ops) (hcall : c.multiOut = true → c.method = .call ∧ c.ops.length ≤ 2)
+    (h : ufuncResult c = .ok r) (hun : r.cls.isUnyt = true) : r.Good := by
+  refine ⟨fun hs => ?_, fun hsz => ?_⟩
+  · cases hm : c.multiOut with
+    | false =>
+      cases hu : c.unitNone with
+      | false => exact (ufunc_wrap_class_iff_shape c r hu hm h).1.2 hs
+      | true =>
+        unfold ufuncResult at h
+        cases hrc : ufuncRetClass (c.ops.map (·.1)) with
+        | error e => simp [hrc] at h
+        | ok rc =>
+          cases hsh : ufuncOutShape c.method (c.ops.map (·.2)) with
+          | error e => simp [hrc, hsh] at h
+          | ok sh =>
+            simp [hrc, hsh, hu, wrapUp] at h
+            subst h; simp [ndarray_not_unyt] at hun
+    | true =>
+      obtain ⟨hmeth, hlen⟩ := hcall hm
+      unfold ufuncResult at h
+      cases hrc : ufuncRetClass (c.ops.map (·.1)) with
+      | error e => simp [hrc] at h
+      | ok rc =>
+        cases hsh : ufuncOutShape c.method (c.ops.map (·.2)) with
+        | error e => simp [hrc, hsh] at h
+        | ok sh =>
+          simp only [hrc, hsh, hm] at h
+          cases hu : c.unitNone with
+          | true =>
+            simp [hu, wrapUp] at h
+            subst h; simp [ndarray_not_unyt] at hun
+          | false =>
+            simp only [hu, wrapUp, Bool.false_eq_true, if_false, if_true] at h
+            cases hc : construct rc sh with
+            | error e => simp [hc] at h
+            | ok r0 =>
+              obtain ⟨hr0, hu0, _⟩ := construct_ok rc sh r0 hc
+              simp only [hc, Bool.or_false] at h
+              by_cases h1 : c.mulIsOne = true
+              · simp only [h1, if_true] at h
+                cases h
+                subst hr0
+                simp only at hs hun
+                subst hs
+                rw [hmeth] at hsh
+                exact call_scalar_class c.ops rc hops hlen hrc hsh hun
+              · simp only [h1, Bool.false_eq_true, if_false] at h
+                cases hb : binaryReturnClass .pyfloat r0.cls with
+                | error e => simp [hb] at h
+                | ok rc' =>
+                  simp only [hb] at h
+                  exact (wrapUp_strict rc' r0.shape r h).1.2 hs
+  · cases hq : r.cls.isQuantity with
+    | false => rfl
+    | true => have := ufunc_no_multielement_quantity c r h hq; omega
+
+/-- non-vacuity: `np.add(unyt_quantity, ndarray of shape (2,3))` is a `unyt_array` of shape (2,3),
+    `np.add.reduce` of it a `unyt_quantity`, `divmod(q, q)` two quantities -/
+example : ufuncResult ⟨.call, false, false, true, [(.uquantity, []), (.ndarray, [2, 3])]⟩ = .ok ⟨.uarray, [2, 3]⟩ := rfl
+example : ufuncResult ⟨.reduce none false, false, false, true, [(.uarray, [2, 3])]⟩ = .ok ⟨.uquantity, []⟩ := rfl
+example : ufuncResult ⟨.call, false, true, true, [(.uquantity, []), (.uquantity, [])]⟩ = .ok ⟨.uquantity, []⟩ := rfl
+example : ufuncResult ⟨.call, false, false, false, [(.subA, [3]), (.uquantity, [])]⟩ = .ok ⟨.subA, [3]⟩ := rfl
+
+/-! ## 2. `Unit.__mul__` with data, and the handlers of `_array_functions.py` -/
+
+/-- **wrap_class_iff_shape (data * unit)** — `data * unit`, `unit * data`, `data / unit` build a
+    `unyt_quantity` iff `np.array(data).shape == ()`, for every shape -/
+theorem unitMul_strict (sh : Shape) (r : Res) (h : unitMulData true sh = .ok r) :
+    r.Strict ∧ r.shape = sh ∧ r.cls.isUnyt = true := by
   unfold unitMulData at h
   by_cases hs : sh = []
-  · simp [hs] at h; subst h; simp [Res.Strict, PyCls.isQuantity, PyCls.isSub]
-  · simp [hs] at h; subst h; simp [Res.Strict, PyCls.isQuantity, PyCls.isSub, PyCls.base, hs]
+  · subst hs; simp at h; subst h
+    exact ⟨⟨fun _ => rfl, fun _ => uquantity_is_quantity⟩, rfl, uquantity_is_unyt⟩
+  · simp [hs] at h; subst h
+    exact ⟨⟨fun hq => by simp [uarray_not_quantity] at hq, fun h' => absurd h' hs⟩, rfl, uarray_is_unyt⟩
+
+/-- data of an admissible dtype kind is never refused -/
+theorem unitMul_total (sh : Shape) : ∃ r, unitMulData true sh = .ok r := by
+  unfold unitMulData; by_cases hs : sh = [] <;> simp [hs]
+
+/-- **wrap_class_iff_shape (handlers)** — a handler that returns `res * units` or chooses the
+    class by `res.ndim == 0` returns a `unyt_quantity` iff the raw result has shape `()` -/
+theorem handler_rule_strict (rule : HRule) (sh : Shape) (r : Res)
+    (hr : rule = .timesUnit ∨ rule = .byNdim) (h : handlerClass rule sh = some r) :
+    r.Strict ∧ r.shape = sh := by
+  rcases hr with rfl | rfl
+  · simp only [handlerClass] at h
+    cases hu : unitMulData true sh with
+    | error e => simp [hu, Except.toOption] at h
+    | ok r' =>
+      simp [hu, Except.toOption] at h; subst h
+      exact ⟨(unitMul_strict sh r' hu).1, (unitMul_strict sh r' hu).2.1⟩
+  · simp only [handlerClass, Option.some.injEq] at h
+    by_cases hs : sh = []
+    · subst hs; simp at h; subst h
+      exact ⟨⟨fun _ => rfl, fun _ => uquantity_is_quantity⟩, rfl⟩
+    · have : sh.length ≠ 0 := by simpa [List.length_eq_zero_iff] using hs
+      simp [this] at h; subst h
+      exact ⟨⟨fun hq => by simp [uarray_not_quantity] at hq, fun h' => absurd h' hs⟩, rfl⟩
+
+/-- a handler that always wraps as `unyt_array(res, units, bypass_validation=True)` meets the
+    property exactly when the raw result is not 0-d -/
+theorem handler_alwaysArray_good_iff (sh : Shape) :
+    ∃ r, handlerClass .alwaysArray sh = some r ∧ (r.Good ↔ sh ≠ []) := by
+  refine ⟨⟨.uarray, sh⟩, rfl, ?_⟩
+  simp only [Res.Good, uarray_not_quantity]
+  constructor
+  · intro h hs; have := h.1 hs; simp at this
+  · intro hs; exact ⟨fun h' => absurd h' hs, fun _ => trivial⟩
+
+/-- every rule of the regenerated handler table is acceptable: built by shape, or an
+    unconditional `unyt_array` for a function that cannot return a 0-d result -/
+def handlerRowOk (excl : List String) (row : String × List HRule) : Bool :=
+  row.2.all fun r =>
+    match r with
+    | .timesUnit | .byNdim | .other => true
+    | .alwaysArray => Ref.c16NeverZeroD.contains row.1 || excl.contains row.1
+    | .alwaysQuantity | .unknown => false
+
+/-- the full table obligation: no exclusions -/
+def C16_handlers_full : Prop := Generated.c16HandlerRules.all (handlerRowOk []) = true
+
+/-- **handler table (P-tab), partial** — every return statement of every handler in
+    `_HANDLED_FUNCTIONS` (regenerated from the source on every run) decides the class by shape,
+    except the `out=` branches of the handlers listed in `Ref.exclC16Handlers` -/
+theorem C16_handlers_partial :
+    Generated.c16HandlerRules.all (handlerRowOk Ref.exclC16Handlers) = true := by decide +kernel
+
+/-- … and each exclusion is still needed: the excluded handlers do have an unconditional
+    `unyt_array(…)` return for a possibly 0-d result, so the full obligation fails -/
+theorem C16_handlers_counterexample :
+    ¬ C16_handlers_full ∧
+    Ref.exclC16Handlers.all (fun n =>
+      (Generated.c16HandlerRules.find? (·.1 == n)).any (fun row => row.2.contains .alwaysArray)) = true := by
+  unfold C16_handlers_full
+  exact ⟨by decide +kernel, by decide +kernel⟩
+
+/-! ## 3. accessors: views and copies -/
+
+/-- regenerated probe and hand-written reference agree row by row, in both directions -/
+def accessorsAgree (gen : List (String × MemRel × String)) (ref : List (String × MemRel)) : Bool :=
+  gen.all (fun g => (ref.find? (·.1 == g.1)).any (fun r => r.2 == g.2.1)) &&
+  ref.all (fun r => (gen.find? (·.1 == r.1)).isSome)
+
+/-- **accessor_table (P-tab)** — `.d/.ndview/ndarray_view()`, slices, reshapes, transposes and
+    the constructor from an ndarray are views; `.v/.value/to_ndarray()/to_value()/copy()`, every
+    converting call and `data * unit` are copies: the probe of the live library equals the
+    reference on every row -/
+theorem accessor_table :
+    accessorsAgree Generated.c16Accessors Ref.c16Accessors = true := by decide +kernel
 
 end Unyt.C16
